@@ -4,8 +4,8 @@
    consistent d r  :=  r = Ok (t, _)  and  consistent_tape (flatten d) t, where with F = flatten d
      consistent_tape F t :=
         prefix_cut t F                                   -- the data ended at top level
-     \/ exists p body,  t = F[0..p) ++ Object{end} :: body ++ [End p]  /\  prefix_cut body F[p+1..)
-                                                         -- exactly one closing bracket was missing
+     \/ exists p body,  t = F[0..p) ++ Object{end} :: body ++ [End p]  /\  F[p] is a container token
+                         /\  prefix_cut body F[p+1..)    -- exactly one closing bracket was missing
      prefix_cut t F := t = [] \/ t = t0 ++ [x] with t0 = F[0..|t0|) LITERALLY (same tokens, same
         absolute indices) and tok_cut x F[|t0|]
      tok_cut x y := x = y \/ x = Unquoted s, y = Unquoted s' or Header s', s a non-empty prefix of s'
@@ -97,6 +97,12 @@ Theorem C19_tokens_frozen : forall s sf F,
   runs s sf -> step sf = Done F -> Inv s -> ext (ptape s) F.
 Proof. exact runs_ext. Qed.
 Print Assumptions C19_tokens_frozen.
+
+(* ---- a container token is only ever rewritten into a container token, at the same index ---- *)
+Theorem C19_containers_stay : forall s sf F,
+  runs s sf -> step sf = Done F -> Inv s -> cext (ptape s) F.
+Proof. exact runs_cext. Qed.
+Print Assumptions C19_containers_stay.
 
 (* ---- the run on the truncated data, from any reachable state of the complete run ---- *)
 Theorem C19_cut_run : forall s sf F,
